@@ -16,6 +16,11 @@ out=${VERIF_OUT:-$PWD/sweep-out}
 mkdir -p "$out"
 bin="$out/sim-snapshot"
 cp /verif/target/release/sim "$bin" || { echo "no built simulator"; exit 2; }
+# the cross-process phase of C04 needs the unhooked build of the SAME sources
+if [ -x /verif/target/unhooked/release/sim ]; then
+  cp /verif/target/unhooked/release/sim "$out/sim-unhooked-snapshot"
+  export VERIF_UNHOOKED_BIN="$out/sim-unhooked-snapshot"
+fi
 rc=0
 for id in "${ids[@]}"; do
   start=$(date +%s)
